@@ -114,6 +114,10 @@ func parseRequest(body []byte) (*ParseRequestResponse, error) {
 		}
 
 		for _, r := range multipleRequests {
+			// null is not a request
+			if r == nil {
+				return nil, errors.New("missing request in batch")
+			}
 			if r.Query == "" {
 				return nil, errors.New("missing query from request")
 			}
